@@ -131,7 +131,9 @@ class EvalMixin:
 
     @staticmethod
     def R(st, sv):
-        """the heap a value must be read in"""
+        """the heap a value must be read in (tuples are values: read through their own pseudo-heap)"""
+        if unopt(sv.k).head in ("tuple", "vtuple"):
+            return ops.TupHeap(sv.t, sv.h if sv.h is not None else st)
         return sv.h if sv.h is not None else st
 
     def truth(self, st, sv):
@@ -155,7 +157,9 @@ class EvalMixin:
         if h == "dict":
             x = bvarV("e")
             return z3.Exists([x], z3.Select(ops.d_has(st, ref(t)), x))
-        if h in ("obj", "val", "opaque", "tuple"):
+        if h == "tuple":
+            return z3.BoolVal(len(k) > 1)
+        if h in ("obj", "val", "opaque"):
             return z3.BoolVal(True)
         if h == "opt":
             inner = self.truth(st, SV(t, k[1], sv.h))
@@ -165,6 +169,8 @@ class EvalMixin:
     def eq(self, st, a, b):
         """python == as a formula"""
         ka, kb = unopt(a.k), unopt(b.k)
+        if ka.head in ("tuple", "vtuple") and kb.head in ("tuple", "vtuple"):
+            return a.t == b.t
         if ka.head in ("list", "vtuple") and kb.head in ("list", "vtuple"):
             f = self.list_eq(self.R(st, a), ref(a.t), self.R(st, b), ref(b.t), ka[1] if len(ka) > 1 else ANY)
             if a.k.head == "opt" or b.k.head == "opt":
@@ -280,6 +286,16 @@ class EvalMixin:
                 t = [c0, c1, c2][i](base.t)
                 assume_typed(st, t, fk, base.h)
                 return SV(t, fk, base.h)
+        if k.head == "opaque" and attr in self.uni.opaque_attrs.get(k[1], {}):
+            # observer attribute of an opaque collaborator object (heap-independent, read in the entry heap)
+            fk = kind_of_annotation(self.uni.opaque_attrs[k[1]][attr], self.uni)
+            name = "attr_%s_%s" % (k[1], attr)
+            if name not in self.uni.uf:
+                self.uni.uf[name] = z3.Function(name, V, V)
+            t = self.uni.uf[name](base.t)
+            frozen = base.h if base.h is not None else getattr(self, "entry", None)
+            assume_typed(st, t, fk, frozen)
+            return SV(t, fk, frozen)
         raise OutOfSubset("attribute .%s on kind %r (line %s)" % (attr, base.k, getattr(node, "lineno", "?")))
 
     def val_spec(self, cname):
@@ -431,7 +447,12 @@ class EvalMixin:
                 raise OutOfSubset("slice step")
             lo = self.as_int(self.ev(node.slice.lower, st, cx)) if node.slice.lower else None
             hi = self.as_int(self.ev(node.slice.upper, st, cx)) if node.slice.upper else None
-            if h in ("list", "vtuple"):
+            if h in ("tuple", "vtuple"):
+                lo_, hi_, n_ = ops.slice_bounds(seq_len(base.t), lo, hi)
+                j_ = bvar("j")
+                arr_ = ops.mk_list_array(st, j_, n_, z3.Select(seq_els(base.t), lo_ + j_))
+                return SV(seq_of(n_, arr_), K("vtuple", k[1] if h == "vtuple" else ANY), base.h)
+            if h == "list":
                 return SV(VRef(ops.l_slice(st, ref(base.t), lo, hi, sb)), k)
             if h == "str":
                 s = self.as_str(base)
@@ -463,8 +484,10 @@ class EvalMixin:
             if not z3.is_int_value(i):
                 raise OutOfSubset("tuple index not constant")
             j = i.as_long()
+            if j < 0:
+                j += len(k) - 1
             ek = k[1 + j]
-            t = [c0, c1, c2][j](base.t)
+            t = z3.Select(seq_els(base.t), j)
             assume_typed(st, t, ek, base.h)
             return SV(t, ek, base.h)
         raise OutOfSubset("subscript on kind %r (line %s)" % (base.k, node.lineno))
@@ -501,10 +524,10 @@ class EvalMixin:
 
     def ev_Tuple(self, node, st, cx):
         elts = [self.ev(e, st, cx) for e in node.elts]
-        if len(elts) > 3:
-            raise OutOfSubset("tuple of more than 3 components")
-        ts = [e.t for e in elts] + [VNone] * (3 - len(elts))
-        return SV(VCon(z3.IntVal(-len(elts)), *ts), K("tuple", *[e.k for e in elts]))
+        arr = z3.K(IntS, VNone)
+        for i, e in enumerate(elts):
+            arr = z3.Store(arr, i, e.t)
+        return SV(seq_of(z3.IntVal(len(elts)), arr), K("tuple", *[e.k for e in elts]))
 
     def ev_Set(self, node, st, cx):
         elts = [self.ev(e, st, cx) for e in node.elts]
